@@ -168,9 +168,9 @@ class Check:
         if rc != 0:
             self.broken.append(f"axiom audit failed to run: {out[-800:]}")
         axioms: dict[str, set[str]] = {}
-        for m in re.finditer(r"'([^']+)' depends on axioms: \[([^\]]*)\]", out.replace("\n", " ")):
+        for m in re.finditer(r"'(\S+)' depends on axioms: \[([^\]]*)\]", out.replace("\n", " ")):
             axioms[m.group(1)] = {a.strip() for a in m.group(2).split(",") if a.strip()}
-        for m in re.finditer(r"'([^']+)' does not depend on any axioms", out):
+        for m in re.finditer(r"'(\S+)' does not depend on any axioms", out):
             axioms[m.group(1)] = set()
         allok = not any(b.startswith("forbidden") or b.startswith("axiom audit") for b in self.broken)
         for n, _, _ in thms:
